@@ -10,7 +10,6 @@ for f in sys.argv[1:]:
             rows[p[0]] = (p[1][5:], p[3], " ".join(x.replace("clause=", "") for x in p[4:]))
 NOTE = {
  "C02-n3": "needs an incomplete database, which C02 does not quantify over; the change violates C07 (a call that neither reports the missing node nor gives the complete-database result) and the C07 check detects it",
- "C09-n2": "the change is the defect D3 again (a batch sharing the outer reference counts); the walk specification mutates the trie by direct set / delete only; the C05 and C06 checks detect it (abort-changed-ref-counts)",
  "C13-n3": "needs a database whose reads raise a transient error; C13 quantifies over tries and keys, not over faulty databases",
  "C14-n3": "from_db over the tree's own database and root still reads identically, which is all the property says; the harness reports the lost write-through as a mirror note",
 }
